@@ -76,30 +76,29 @@ Theorem rectangle_splits :
 Proof. exact ShapesSpec.rectangle_splits. Qed.
 Print Assumptions rectangle_splits.
 
-(* (7) the overflow guard of eta_function.  For exp(-w/T) = x below machine epsilon the code replaces the thermal
-   kernel  (A + x conj(A) - x - 1)/(1 - x) + i w tau   (A = exp(-i w tau)) by the zero-temperature one,
-   A - 1 + i w tau.  The two differ by exactly  x (A + conj(A) - 2)/(1 - x): for A on the unit circle a real number
-   in [-4x/(1-x), 0] — the guard changes only the real part of the integrand, by at most 4 eps/(1 - eps) relatively to
-   the zero-temperature kernel's scale, and the linear term i w tau must be present in BOTH branches.  Stated for the
-   real and imaginary parts (re A, im A) = (c, s) separately, over the reals, any x <> 1. *)
+(* (7) the overflow guard of eta_function / correlation.  For exp(-w/T) = x below machine epsilon the code replaces
+   the thermal kernel  (A + B - x - 1)/(1 - x) + i w tau   (A = exp(-i w tau), B = exp(-(w/T - i w tau)))  by
+   A + B - 1 + i w tau  (it drops x, not B: B = exp(-(beta - tau) w) is of order one for Matsubara times near beta; the
+   code before the repair 42443af dropped B as well, which is what made Matsubara integrals wrong at low temperature).
+   The two differ by exactly  x (A + B - 2)/(1 - x), separately for real and imaginary parts; for Matsubara times
+   (A, B real in (0, 1]) and for real times (|A| = 1, |B| = x) the real part of the difference lies in [-4x/(1-x), 0]:
+   the guard changes the integrand by a relative 4 eps at most, and the linear term i w tau is present in BOTH branches. *)
 Theorem overflow_guard_identity :
-  forall c s x wt : R, (1 - x <> 0)%R ->
-    (* real part *)
-    (((c + x * c - x - 1) / (1 - x)) - (c - 1) = x * (2 * c - 2) / (1 - x))%R /\
-    (* imaginary part: conj(A) contributes -s *)
-    (((s - x * s) / (1 - x) + wt) - (s + wt) = 0)%R.
-Proof. intros c s x wt H. split; field; exact H. Qed.
+  forall c s cb sb x wt : R, (1 - x <> 0)%R ->
+    (((c + cb - x - 1) / (1 - x)) - (c + cb - 1) = x * (c + cb - 2) / (1 - x))%R /\
+    (((s + sb) / (1 - x) + wt) - (s + sb + wt) = x * (s + sb) / (1 - x))%R.
+Proof. intros c s cb sb x wt H. split; field; exact H. Qed.
 Print Assumptions overflow_guard_identity.
 
 Theorem overflow_guard_bound :
-  forall c x : R, (-1 <= c <= 1)%R -> (0 <= x < 1)%R ->
-    (- (4 * x / (1 - x)) <= x * (2 * c - 2) / (1 - x) <= 0)%R.
+  forall c cb x : R, (-1 <= c <= 1)%R -> (-1 <= cb <= 1)%R -> (0 <= x < 1)%R ->
+    (- (4 * x / (1 - x)) <= x * (c + cb - 2) / (1 - x) <= 0)%R.
 Proof.
-  intros c x [Hc1 Hc2] [Hx1 Hx2].
+  intros c cb x [Hc1 Hc2] [Hb1 Hb2] [Hx1 Hx2].
   assert (Hd : (0 < 1 - x)%R) by lra.
   assert (Hi : (0 < / (1 - x))%R) by (apply Rinv_0_lt_compat; exact Hd).
-  assert (Hn : (x * (2 * c - 2) <= 0)%R) by nra.
-  assert (Hm : (- (4 * x) <= x * (2 * c - 2))%R) by nra.
+  assert (Hn : (x * (c + cb - 2) <= 0)%R) by nra.
+  assert (Hm : (- (4 * x) <= x * (c + cb - 2))%R) by nra.
   unfold Rdiv. split.
   - replace (- (4 * x * / (1 - x)))%R with ((- (4 * x)) * / (1 - x))%R by ring.
     apply Rmult_le_compat_r; [left; exact Hi|exact Hm].
